@@ -137,7 +137,15 @@ where
     });
     match res {
         Ok(()) => None,
-        Err(TestError::Fail(reason, v)) => Some((v, reason.message().to_string())),
+        Err(TestError::Fail(reason, v)) => {
+            if !failed.get() {
+                // the closure never reported a failure: proptest caught a panic of the harness itself.
+                // That is a defect of the machinery, never a verdict about the code under test.
+                eprintln!("HARNESS ERROR: the check's own code panicked: {} (case {:?})", reason.message(), v);
+                std::process::exit(2);
+            }
+            Some((v, reason.message().to_string()))
+        }
         Err(TestError::Abort(reason)) => {
             eprintln!("proptest aborted: {}", reason.message());
             None
